@@ -8,6 +8,7 @@ import numpy as np
 from symx.explore import Harness
 from symx import load
 from harness import common
+from harness import shared
 
 BOUNDS = {
     "quick": {"inputs": "2 (+ variants: input without obs, climatology, differing coverage)", "shape": "2 times x 1 lead time x 2 locations",
@@ -253,5 +254,6 @@ def harnesses(tier):
         Harness("cases.clim", h_cases("clim", n + 1 if not thorough else n, T, L, P, thorough), "with a climatology input, axis All"),
         Harness("cases.coverage", h_cases("coverage", n, T, 1, P, thorough), "last input has an extra time, reversed and extra locations"),
         Harness("noninterference", h_noninterference(2, T, 1, P), "independent forecast values in input B"),
+        Harness("cases.ensemble", shared.h_ensemble_probability(2, 1, 2), "a probability derived from ensemble members: a case without any valid member is dropped for every input"),
     ]
     return hs
